@@ -597,12 +597,15 @@ class Inliner:
         return [st]
 
     def _try_expr(self, call: ast.Call) -> Optional[ast.expr]:
-        # (expression mode is applied by _rewrite_exprs; whole-value statements fall through to it)
+        """does expression mode apply to this whole-value call?  (then _rewrite_exprs substitutes it; otherwise the body is spliced)"""
         cal = self._callee(call)
         if cal is not None:
             fn, body, recv = cal
             if len(body) == 1 and isinstance(body[0], ast.Return) and body[0].value is not None and _bind(fn, call, recv) is not None:
-                return call
+                n0 = len(self.inlined)
+                probe = self._expr_mode(copy.deepcopy(call)) if not any(id(x) in self.foreign for x in ()) else None
+                del self.inlined[n0:]
+                return call if probe is not None else None
         return None
 
     def _rewrite_exprs(self, e: ast.expr) -> ast.expr:
